@@ -10,6 +10,7 @@ Mirrors, for the call sequence `Molecule(...)` → `Electronic_Structure(seqm_pa
 | 1 | `Molecule.check_input` | a species row is not non-increasing | `ValueError` |
 | 2 | `basics.Parser.forward` (UHF) | `nocc_alpha % 1 != 0` or `nocc_beta % 1 != 0` | `ValueError` |
 | 3 | `basics.Parser.forward` (RHF) | `n_charge % 2 == 1` | `ValueError` |
+| 3b | `basics.Parser.forward` (repair of F17) | `nocc_min < 0` or `nocc_max > norb` | `ValueError` |
 | 4 | `basics.Hamiltonian.__init__` | `excited_states` without `n_states` | `ValueError` |
 | 5 | `basics.Energy.__init__` | `UHF` and `excited_states is not None` | `NotImplementedError` |
 | 6 | `MolecularDynamics.initialize` | `remove_com` mode not `linear`/`angular` | `ValueError` |
@@ -32,8 +33,10 @@ Remarks read off the code (they shape the model):
 * guards 11–15 fire only after the SCF ran and after `molecule.w`, `molecule.molecular_orbitals`,
   `molecule.dipole`, `molecule.analytical_gradient` were overwritten: nothing is *returned*, but the
   molecule object has been mutated (`ErrKind.afterSCF`).
-* There is **no** guard on `0 ≤ nocc ≤ norb` nor on `mult ≥ 1` (finding F17); `acceptsFixed` adds one
-  (DESIGN Appendix C.6 plus `mult ≥ 1`).
+* At the pinned commit there is **no** guard on `0 ≤ nocc ≤ norb` (finding F17): `acceptsPreFix`.
+  The repair (DESIGN Appendix C.6, in `Parser.forward` right after the parity tests:
+  `if (nocc_min < 0).any() or (nocc_max > norb_per_mol).any(): raise ValueError`) is `accepts`.
+  Neither checks `mult ≥ 1` (`mult = -1` is a triplet with α/β swapped); `acceptsFixed` adds that.
 * RHF ignores `mult` altogether.
 * `HIPNN_automatic_doublet` is taken at its default `False`; `xlesmd` drivers, `do_all_forces`,
   `nroots > nov` and `normal modes` guards are not modelled.
@@ -176,7 +179,15 @@ def uniformOcc (i : Input) : Bool :=
 def analyticalEff (i : Input) : Bool :=
   i.analyticalGrad || (i.activeExcited && i.scfBackward == .none)
 
-/-- the occupation range nobody checks (F17): `mult ≥ 1`, `0 ≤ nocc`, `nocc ≤ norb` -/
+/-- the repair of F17 as committed: `nocc_min ≥ 0` and `nocc_max ≤ norb_per_mol`
+    (evaluated after the parity tests, where `nocc = twoAlpha/2, twoBeta/2` resp. `n/2` exactly) -/
+def noccRangeOK (i : Input) : Bool :=
+  i.mols.all fun m =>
+    if i.uhf then decide (0 ≤ twoAlpha m) && decide (0 ≤ twoBeta m) &&
+                  decide (twoAlpha m ≤ 2 * (norb i.method m : Int)) && decide (twoBeta m ≤ 2 * (norb i.method m : Int))
+    else decide (0 ≤ nelec m) && decide (nelec m ≤ 2 * (norb i.method m : Int))
+
+/-- the documented occupation precondition: `mult ≥ 1`, `0 ≤ nocc`, `nocc ≤ norb` -/
 def occOK (i : Input) : Bool :=
   i.mols.all fun m =>
     if i.uhf then decide (1 ≤ m.mult) && decide (0 ≤ twoBeta m) && decide (twoAlpha m ≤ 2 * (norb i.method m : Int))
@@ -190,7 +201,10 @@ def guardsParse (i : Input) : List (Bool × ErrKind) :=
     (i.uhf && i.mols.any uhfFractional, .badChargeMult),
     (!i.uhf && i.mols.any (fun m => nelec m % 2 == 1), .oddElectronsRHF) ]
 
-/-- the guard the code lacks -/
+/-- the guard added by the repair of F17 -/
+def guardNocc (i : Input) : List (Bool × ErrKind) := [ (!noccRangeOK i, .noccRange) ]
+
+/-- the same guard strengthened by `mult ≥ 1` -/
 def guardOcc (i : Input) : List (Bool × ErrKind) := [ (!occOK i, .noccRange) ]
 
 /-- `Electronic_Structure.__init__` → `Hamiltonian.__init__`, `Energy.__init__` -/
@@ -239,10 +253,14 @@ def firstError : List (Bool × ErrKind) → Except ErrKind Unit
   | [] => .ok ()
   | (c, e) :: gs => if c then .error e else firstError gs
 
-/-- the code as it is -/
-def accepts (i : Input) : Except ErrKind Unit := firstError (guardsParse i ++ guardsRest i)
+/-- the code at the pinned commit (no occupation guard) -/
+def acceptsPreFix (i : Input) : Except ErrKind Unit := firstError (guardsParse i ++ guardsRest i)
 
-/-- the code with the occupation guard added in `Parser.forward` (after the parity tests) -/
+/-- the code as it is now (occupation guard of the F17 repair in `Parser.forward`) -/
+def accepts (i : Input) : Except ErrKind Unit :=
+  firstError (guardsParse i ++ guardNocc i ++ guardsRest i)
+
+/-- the code with the occupation guard strengthened by `mult ≥ 1` -/
 def acceptsFixed (i : Input) : Except ErrKind Unit :=
   firstError (guardsParse i ++ guardOcc i ++ guardsRest i)
 
@@ -354,10 +372,12 @@ def showResult : Except ErrKind Unit → String
 * per molecule the species row including padding zeros.
 
 Answer: `ok` or the token of the first guard that fires (`ErrKind.token`):
-`unsorted bad_charge_mult odd_electrons_rhf no_n_states uhf_excited bad_com_mode pm6_uhf uhf_pulay
+`unsorted bad_charge_mult odd_electrons_rhf nocc_range no_n_states uhf_excited bad_com_mode pm6_uhf uhf_pulay
  uhf_ksa uhf_sp2 bad_converger_direct active_no_settings bad_exc_method non_uniform_exc
  exc_occ_differ non_uniform_exc_grad`.
-`validate_fixed …` same arguments, with the occupation guard (`nocc_range`).
+(`nocc_range` = the guard of the F17 repair).
+`validate_prefix …` same arguments, the code at the pinned commit (no occupation guard).
+`validate_fixed …` same arguments, occupation guard strengthened by `mult ≥ 1`.
 `validate_class …` same arguments → Python exception class of the first guard, or `ok`.
 `wellformed …` same arguments → `1`/`0`.
 `tore Z` → valence electron count used by the model. -/
@@ -367,7 +387,8 @@ def handle (toks : List String) : Option String :=
     let n ← z.toNat?
     if n < toreTable.length then pure (toString (tore n)) else none
   | op :: rest =>
-    if op = "validate" ∨ op = "validate_fixed" ∨ op = "validate_class" ∨ op = "wellformed" then do
+    if op = "validate" ∨ op = "validate_fixed" ∨ op = "validate_prefix" ∨ op = "validate_class" ∨
+       op = "wellformed" then do
       let ns ← intList? rest
       match ns with
       | uhf :: meth :: sp2 :: conv :: back :: exc :: nst :: act :: ana :: com :: nmol :: more =>
@@ -377,6 +398,7 @@ def handle (toks : List String) : Option String :=
                   act.toNat ana.toNat com.toNat mols
         if op = "validate" then pure (showResult (accepts i))
         else if op = "validate_fixed" then pure (showResult (acceptsFixed i))
+        else if op = "validate_prefix" then pure (showResult (acceptsPreFix i))
         else if op = "validate_class" then
           pure (match accepts i with | .ok () => "ok" | .error e => e.pyClass)
         else pure (if decide (WellFormed i) then "1" else "0")
